@@ -893,6 +893,31 @@ func waitScReadFecRecovery(e *waitEnv, r *waitResult, sc *waitScenario) {
 		"read-data-lost-wakeup:fec-recovery", "", "the parity packet completed the group and the lost message was reconstructed")
 }
 
+// Read blocked on an ACCEPTED session (it has no receive loop of its own: the listener's monitor
+// hands socket errors on); the listener is closed first, then the shared socket fails: the error
+// must still reach the session and wake its reader.
+func waitScReadAcceptedSockErr(e *waitEnv, r *waitResult, sc *waitScenario) {
+	call := e.goRead(e.ss, 0, 256)
+	sc.sep()
+	if !waitExpectBlocked(e, r, &waitReadSide, []*waitCall{call}, "before the listener was closed") {
+		return
+	}
+	e.l.Close() // the listener does not own the socket: its sessions live on
+	sc.sep()
+	if call.returned() && call.class != "sockerr" && call.class != "closed" {
+		r.violate("spurious-return:Read", "%s: Read on the accepted session returned %s when its listener was closed", e.name, call.class)
+		return
+	}
+	e.sconn.failReads()
+	e.logf("listener closed, then the socket's reads fail")
+	waitAll([]*waitCall{call}, time.Now().Add(waitMargin))
+	r.check("socket error after Listener.Close reaches the accepted session")
+	r.Outcome = waitClasses([]*waitCall{call})
+	if !call.returned() {
+		r.violate("socket-error-does-not-wake:Read:accepted-session-after-listener-close", "%s: Read on an accepted session is still blocked %v after its listener was closed and the socket reported a read error", e.name, waitMargin)
+	}
+}
+
 func waitScReadSeparate(n int) func(*waitEnv, *waitResult, *waitScenario) {
 	return func(e *waitEnv, r *waitResult, sc *waitScenario) {
 		sd := &waitReadSide
@@ -1104,6 +1129,7 @@ func waitCatalogue(thorough bool, rng *vrng) []*waitScenario {
 	}
 	add("wake-short-buffer", "Read", 2, true, waitScReadShort)
 	add("wake-fec-recovery", "Read", 1, false, waitScReadFecRecovery)
+	add("accepted-session-socket-error-after-listener-close", "Read", 1, true, waitScReadAcceptedSockErr)
 	// one datagram, several messages and/or a message longer than a buffer, >= 3 readers: each of
 	// the three successful paths of Read (bufptr, direct, recvbuf) is in turn the LAST one that
 	// must pass the token on (readers are served in parking order)
